@@ -81,7 +81,9 @@ def cases(draw):
             fate = ['signal', 'KILL']
         hist = [draw(st.sampled_from(['isalive', 'wait', 'close', 'close', 'terminate'])) for _ in range(n)]
     # the child prints a line before it meets its fate: its last output and the hang-up are then picked up together
-    return {'transport': transport, 'fate': fate, 'how': how, 'history': hist, 'talk': draw(st.booleans())}
+    # 'deferred': the object is made first (spawn(None)) and the child started later, the way pxssh.login() does it
+    return {'transport': transport, 'fate': fate, 'how': how, 'history': hist, 'talk': draw(st.booleans()),
+            'form': draw(st.sampled_from(['direct', 'direct', 'direct', 'deferred']))}
 
 
 def command(fate, how, talk=False):
@@ -151,7 +153,11 @@ def judge(child, fate, where, with_status=True):
 def check_pty(case, col=None):
     fate, how = case['fate'], case['how']
     cmd = command(fate, how, case.get('talk', False))
-    child = pexpect.spawn(cmd[0], cmd[1:], timeout=20)
+    if case.get('form') == 'deferred':
+        child = pexpect.spawn(None, timeout=20)
+        child._spawn(cmd[0], cmd[1:])
+    else:
+        child = pexpect.spawn(cmd[0], cmd[1:], timeout=20)
     g_ = case.get('_grace')
     child.delayafterterminate = g_ or 0.02
     child.ptyproc.delayafterterminate = g_ or 0.02
@@ -356,6 +362,8 @@ def check_case(case, col=None):
         col.label('transport=' + tr)
         col.label('fate=' + fate[0])
         col.label('how=' + case['how'])
+        if case.get('form') == 'deferred' and tr == 'pty':
+            col.label('form=spawn(None)+_spawn')
         col.case(case, nt)
 
 
